@@ -399,6 +399,8 @@ func (r *Run) observe() {
 		r.installs = append(r.installs, in)
 	} else if last := r.installs[len(r.installs)-1]; last.Serial != n {
 		r.fail("C05.serial", "serial changed from %d to %d without a new config", last.Serial, n)
+		// two versions that are one and the same struct share all their memory
+		r.fail("C02.aliasing", "versions serial=%d and serial=%d are the very same struct %p: a holder of the older one who writes to it changes the current one", last.Serial, n, cfg)
 	}
 	// abstract state for the distinct-states measure
 	h := fmt.Sprintf("%d|%v|%d|%d|%s", n, cfg.stamps(), len(r.cbs), len(r.verifies), r.sim.ParkedLabels())
